@@ -1374,31 +1374,6 @@ Require Verif.Tie.PypiRange.
 Require Verif.Tie.Rpm.
 Require Verif.Tie.RpmRange.
 Require Verif.Tie.Semver.
-Require Verif.Tie.Loops.Alpine.
-Require Verif.Tie.Loops.Alpm.
-Require Verif.Tie.Loops.AlpmRange.
-Require Verif.Tie.Loops.Cargo.
-Require Verif.Tie.Loops.CargoRange.
-Require Verif.Tie.Loops.Conan.
-Require Verif.Tie.Loops.ConanRange.
-Require Verif.Tie.Loops.Cran.
-Require Verif.Tie.Loops.CranRange.
-Require Verif.Tie.Loops.Debian.
-Require Verif.Tie.Loops.DebianRange.
-Require Verif.Tie.Loops.Gem.
-Require Verif.Tie.Loops.Golang.
-Require Verif.Tie.Loops.GolangRange.
-Require Verif.Tie.Loops.Hex.
-Require Verif.Tie.Loops.HexRange.
-Require Verif.Tie.Loops.Maven.
-Require Verif.Tie.Loops.Npm.
-Require Verif.Tie.Loops.Nuget.
-Require Verif.Tie.Loops.NugetRange.
-Require Verif.Tie.Loops.Pypi.
-Require Verif.Tie.Loops.PypiRange.
-Require Verif.Tie.Loops.Rpm.
-Require Verif.Tie.Loops.RpmRange.
-Require Verif.Tie.Loops.Semver.
 Definition C20_tie_alpine_compareInt := Verif.Tie.Alpine.tie_alpine_compareInt.
 Print Assumptions C20_tie_alpine_compareInt.
 Definition C20_tie_alpine_compareLetters := Verif.Tie.Alpine.tie_alpine_compareLetters.
@@ -1579,202 +1554,4 @@ Definition C20_tie_semver_compareInt := Verif.Tie.Semver.tie_semver_compareInt.
 Print Assumptions C20_tie_semver_compareInt.
 Definition C20_tie_semver_compare := Verif.Tie.Semver.tie_semver_compare.
 Print Assumptions C20_tie_semver_compare.
-Definition C20_tie_loops_alpine_hasLeadingZero := Verif.Tie.Loops.Alpine.tie_loops_alpine_hasLeadingZero.
-Print Assumptions C20_tie_loops_alpine_hasLeadingZero.
-Definition C20_tie_hasLeadingZero_total_model := Verif.Tie.Loops.Alpine.hasLeadingZero_total_model.
-Print Assumptions C20_tie_hasLeadingZero_total_model.
-Definition C20_tie_loops_alpine_compareNumericArraysNumeric := Verif.Tie.Loops.Alpine.tie_loops_alpine_compareNumericArraysNumeric.
-Print Assumptions C20_tie_loops_alpine_compareNumericArraysNumeric.
-Definition C20_tie_compareNumericArraysNumeric_total_model := Verif.Tie.Loops.Alpine.compareNumericArraysNumeric_total_model.
-Print Assumptions C20_tie_compareNumericArraysNumeric_total_model.
-Definition C20_tie_loops_alpine_compareSuffixArrays := Verif.Tie.Loops.Alpine.tie_loops_alpine_compareSuffixArrays.
-Print Assumptions C20_tie_loops_alpine_compareSuffixArrays.
-Definition C20_tie_compareSuffixArrays_total_model := Verif.Tie.Loops.Alpine.compareSuffixArrays_total_model.
-Print Assumptions C20_tie_compareSuffixArrays_total_model.
-Definition C20_tie_loops_alpm_isAlphaSegment := Verif.Tie.Loops.Alpm.tie_loops_alpm_isAlphaSegment.
-Print Assumptions C20_tie_loops_alpm_isAlphaSegment.
-Definition C20_tie_isAlphaSegment_total_model := Verif.Tie.Loops.Alpm.isAlphaSegment_total_model.
-Print Assumptions C20_tie_isAlphaSegment_total_model.
-Definition C20_tie_loops_alpm_compareALMPDigits := Verif.Tie.Loops.Alpm.tie_loops_alpm_compareALMPDigits.
-Print Assumptions C20_tie_loops_alpm_compareALMPDigits.
-Definition C20_tie_loops_alpm_compareSegments := Verif.Tie.Loops.Alpm.tie_loops_alpm_compareSegments.
-Print Assumptions C20_tie_loops_alpm_compareSegments.
-Definition C20_tie_compareSegments_total_model := Verif.Tie.Loops.Alpm.compareSegments_total_model.
-Print Assumptions C20_tie_compareSegments_total_model.
-Definition C20_tie_loops_alpm_segment_loop := Verif.Tie.Loops.Alpm.loops_alpm_segment_loop.
-Print Assumptions C20_tie_loops_alpm_segment_loop.
-Definition C20_tie_loops_alpm_compareSegmentBySegment := Verif.Tie.Loops.Alpm.tie_loops_alpm_compareSegmentBySegment.
-Print Assumptions C20_tie_loops_alpm_compareSegmentBySegment.
-Definition C20_tie_compareSegmentBySegment_total_model := Verif.Tie.Loops.Alpm.compareSegmentBySegment_total_model.
-Print Assumptions C20_tie_compareSegmentBySegment_total_model.
-Definition C20_tie_alpm_compare_closed := Verif.Tie.Loops.Alpm.tie_alpm_compare_closed.
-Print Assumptions C20_tie_alpm_compare_closed.
-Definition C20_tie_loops_alpm_compareSegmentBySegment_closed := Verif.Tie.Loops.Alpm.tie_loops_alpm_compareSegmentBySegment_closed.
-Print Assumptions C20_tie_loops_alpm_compareSegmentBySegment_closed.
-Definition C20_tie_alpm_compare_closed_model_split := Verif.Tie.Loops.Alpm.tie_alpm_compare_closed_model_split.
-Print Assumptions C20_tie_alpm_compare_closed_model_split.
-Definition C20_tie_alpm_matches_closed := Verif.Tie.Loops.AlpmRange.tie_alpm_matches_closed.
-Print Assumptions C20_tie_alpm_matches_closed.
-Definition C20_tie_alpm_contains_closed := Verif.Tie.Loops.AlpmRange.tie_alpm_contains_closed.
-Print Assumptions C20_tie_alpm_contains_closed.
-Definition C20_tie_alpm_contains_closed_model_split := Verif.Tie.Loops.AlpmRange.tie_alpm_contains_closed_model_split.
-Print Assumptions C20_tie_alpm_contains_closed_model_split.
-Definition C20_tie_loops_cargo_comparePrereleaseIdentifiers := Verif.Tie.Loops.Cargo.tie_loops_cargo_comparePrereleaseIdentifiers.
-Print Assumptions C20_tie_loops_cargo_comparePrereleaseIdentifiers.
-Definition C20_tie_comparePrereleaseIdentifiers_total_model := Verif.Tie.Loops.Cargo.comparePrereleaseIdentifiers_total_model.
-Print Assumptions C20_tie_comparePrereleaseIdentifiers_total_model.
-Definition C20_tie_cargo_compare_closed := Verif.Tie.Loops.Cargo.tie_cargo_compare_closed.
-Print Assumptions C20_tie_cargo_compare_closed.
-Definition C20_tie_loops_cargo_countVersionComponents := Verif.Tie.Loops.CargoRange.tie_loops_cargo_countVersionComponents.
-Print Assumptions C20_tie_loops_cargo_countVersionComponents.
-Definition C20_tie_loops_cargo_countVersionComponents_range := Verif.Tie.Loops.CargoRange.loops_cargo_countVersionComponents_range.
-Print Assumptions C20_tie_loops_cargo_countVersionComponents_range.
-Definition C20_tie_compare_closed := Verif.Tie.Loops.CargoRange.compare_closed.
-Print Assumptions C20_tie_compare_closed.
-Definition C20_tie_cargo_caret_closed := Verif.Tie.Loops.CargoRange.tie_cargo_caret_closed.
-Print Assumptions C20_tie_cargo_caret_closed.
-Definition C20_tie_cargo_tilde_closed := Verif.Tie.Loops.CargoRange.tie_cargo_tilde_closed.
-Print Assumptions C20_tie_cargo_tilde_closed.
-Definition C20_tie_cargo_satisfiesConstraint_closed := Verif.Tie.Loops.CargoRange.tie_cargo_satisfiesConstraint_closed.
-Print Assumptions C20_tie_cargo_satisfiesConstraint_closed.
-Definition C20_tie_cargo_satisfiesConstraint_counted := Verif.Tie.Loops.CargoRange.tie_cargo_satisfiesConstraint_counted.
-Print Assumptions C20_tie_cargo_satisfiesConstraint_counted.
-Definition C20_tie_loops_conan_naturalCompare := Verif.Tie.Loops.Conan.tie_loops_conan_naturalCompare.
-Print Assumptions C20_tie_loops_conan_naturalCompare.
-Definition C20_tie_naturalCompare_total_model := Verif.Tie.Loops.Conan.naturalCompare_total_model.
-Print Assumptions C20_tie_naturalCompare_total_model.
-Definition C20_tie_loops_conan_compareVersionParts := Verif.Tie.Loops.Conan.tie_loops_conan_compareVersionParts.
-Print Assumptions C20_tie_loops_conan_compareVersionParts.
-Definition C20_tie_compareVersionParts_total_model := Verif.Tie.Loops.Conan.compareVersionParts_total_model.
-Print Assumptions C20_tie_compareVersionParts_total_model.
-Definition C20_tie_loops_conan_comparePrerelease := Verif.Tie.Loops.Conan.tie_loops_conan_comparePrerelease.
-Print Assumptions C20_tie_loops_conan_comparePrerelease.
-Definition C20_tie_comparePrerelease_total_model := Verif.Tie.Loops.Conan.comparePrerelease_total_model.
-Print Assumptions C20_tie_comparePrerelease_total_model.
-Definition C20_tie_conan_compare_closed := Verif.Tie.Loops.Conan.tie_conan_compare_closed.
-Print Assumptions C20_tie_conan_compare_closed.
-Definition C20_tie_loops_conan_tildeMatch := Verif.Tie.Loops.ConanRange.tie_loops_conan_tildeMatch.
-Print Assumptions C20_tie_loops_conan_tildeMatch.
-Definition C20_tie_loops_conan_caretMatch := Verif.Tie.Loops.ConanRange.tie_loops_conan_caretMatch.
-Print Assumptions C20_tie_loops_conan_caretMatch.
-Definition C20_tie_tildeMatch_total_model := Verif.Tie.Loops.ConanRange.tildeMatch_total_model.
-Print Assumptions C20_tie_tildeMatch_total_model.
-Definition C20_tie_caretMatch_total_model := Verif.Tie.Loops.ConanRange.caretMatch_total_model.
-Print Assumptions C20_tie_caretMatch_total_model.
-Definition C20_tie_conan_contains_closed := Verif.Tie.Loops.ConanRange.tie_conan_contains_closed.
-Print Assumptions C20_tie_conan_contains_closed.
-Definition C20_tie_loops_cran_compare := Verif.Tie.Loops.Cran.tie_loops_cran_compare.
-Print Assumptions C20_tie_loops_cran_compare.
-Definition C20_tie_Version_Compare_total_model := Verif.Tie.Loops.Cran.Version_Compare_total_model.
-Print Assumptions C20_tie_Version_Compare_total_model.
-Definition C20_tie_cran_contains_closed := Verif.Tie.Loops.CranRange.tie_cran_contains_closed.
-Print Assumptions C20_tie_cran_contains_closed.
-Definition C20_tie_loops_debian_compareDebianDigits := Verif.Tie.Loops.Debian.tie_loops_debian_compareDebianDigits.
-Print Assumptions C20_tie_loops_debian_compareDebianDigits.
-Definition C20_tie_loops_debian_getDebianCharWeight := Verif.Tie.Loops.Debian.tie_loops_debian_getDebianCharWeight.
-Print Assumptions C20_tie_loops_debian_getDebianCharWeight.
-Definition C20_tie_loops_debian_compareDebianNonDigits := Verif.Tie.Loops.Debian.tie_loops_debian_compareDebianNonDigits.
-Print Assumptions C20_tie_loops_debian_compareDebianNonDigits.
-Definition C20_tie_loops_debian_compareDebianNonDigits_sum := Verif.Tie.Loops.Debian.tie_loops_debian_compareDebianNonDigits_sum.
-Print Assumptions C20_tie_loops_debian_compareDebianNonDigits_sum.
-Definition C20_tie_loops_debian_compareDebianVersionString := Verif.Tie.Loops.Debian.tie_loops_debian_compareDebianVersionString.
-Print Assumptions C20_tie_loops_debian_compareDebianVersionString.
-Definition C20_tie_compareDebianVersionString_total_model := Verif.Tie.Loops.Debian.compareDebianVersionString_total_model.
-Print Assumptions C20_tie_compareDebianVersionString_total_model.
-Definition C20_tie_debian_compare_closed := Verif.Tie.Loops.Debian.tie_debian_compare_closed.
-Print Assumptions C20_tie_debian_compare_closed.
-Definition C20_tie_debian_satisfiesConstraint_closed := Verif.Tie.Loops.DebianRange.tie_debian_satisfiesConstraint_closed.
-Print Assumptions C20_tie_debian_satisfiesConstraint_closed.
-Definition C20_tie_debian_contains_closed := Verif.Tie.Loops.DebianRange.tie_debian_contains_closed.
-Print Assumptions C20_tie_debian_contains_closed.
-Definition C20_tie_loops_gem_removeTrailingZeros_exact := Verif.Tie.Loops.Gem.tie_loops_gem_removeTrailingZeros_exact.
-Print Assumptions C20_tie_loops_gem_removeTrailingZeros_exact.
-Definition C20_tie_loops_gem_removeTrailingZeros := Verif.Tie.Loops.Gem.tie_loops_gem_removeTrailingZeros.
-Print Assumptions C20_tie_loops_gem_removeTrailingZeros.
-Definition C20_tie_removeTrailingZeros_total_model := Verif.Tie.Loops.Gem.removeTrailingZeros_total_model.
-Print Assumptions C20_tie_removeTrailingZeros_total_model.
-Definition C20_tie_loops_gem_split_exact := Verif.Tie.Loops.Gem.tie_loops_gem_split_exact.
-Print Assumptions C20_tie_loops_gem_split_exact.
-Definition C20_tie_loops_gem_split := Verif.Tie.Loops.Gem.tie_loops_gem_split.
-Print Assumptions C20_tie_loops_gem_split.
-Definition C20_tie_Version_splitNumericAndPrerelease_total_model := Verif.Tie.Loops.Gem.Version_splitNumericAndPrerelease_total_model.
-Print Assumptions C20_tie_Version_splitNumericAndPrerelease_total_model.
-Definition C20_tie_loops_gem_compareSegmentArrays := Verif.Tie.Loops.Gem.tie_loops_gem_compareSegmentArrays.
-Print Assumptions C20_tie_loops_gem_compareSegmentArrays.
-Definition C20_tie_compareSegmentArrays_total_model := Verif.Tie.Loops.Gem.compareSegmentArrays_total_model.
-Print Assumptions C20_tie_compareSegmentArrays_total_model.
-Definition C20_tie_loops_gem_compare := Verif.Tie.Loops.Gem.tie_loops_gem_compare.
-Print Assumptions C20_tie_loops_gem_compare.
-Definition C20_tie_loops_golang_comparePrerelease := Verif.Tie.Loops.Golang.tie_loops_golang_comparePrerelease.
-Print Assumptions C20_tie_loops_golang_comparePrerelease.
-Definition C20_tie_golang_compare_closed := Verif.Tie.Loops.Golang.tie_golang_compare_closed.
-Print Assumptions C20_tie_golang_compare_closed.
-Definition C20_tie_golang_matches_closed := Verif.Tie.Loops.GolangRange.tie_golang_matches_closed.
-Print Assumptions C20_tie_golang_matches_closed.
-Definition C20_tie_golang_contains_closed := Verif.Tie.Loops.GolangRange.tie_golang_contains_closed.
-Print Assumptions C20_tie_golang_contains_closed.
-Definition C20_tie_loops_hex_comparePreRelease := Verif.Tie.Loops.Hex.tie_loops_hex_comparePreRelease.
-Print Assumptions C20_tie_loops_hex_comparePreRelease.
-Definition C20_tie_comparePreRelease_total_model := Verif.Tie.Loops.Hex.comparePreRelease_total_model.
-Print Assumptions C20_tie_comparePreRelease_total_model.
-Definition C20_tie_hex_compare_closed := Verif.Tie.Loops.Hex.tie_hex_compare_closed.
-Print Assumptions C20_tie_hex_compare_closed.
-Definition C20_tie_hex_matches_closed := Verif.Tie.Loops.HexRange.tie_hex_matches_closed.
-Print Assumptions C20_tie_hex_matches_closed.
-Definition C20_tie_hex_contains_closed := Verif.Tie.Loops.HexRange.tie_hex_contains_closed.
-Print Assumptions C20_tie_hex_contains_closed.
-Definition C20_tie_hex_contains_closed_model_ident := Verif.Tie.Loops.HexRange.tie_hex_contains_closed_model_ident.
-Print Assumptions C20_tie_hex_contains_closed_model_ident.
-Definition C20_tie_loops_maven_trimTrailingNulls_gen := Verif.Tie.Loops.Maven.tie_loops_maven_trimTrailingNulls_gen.
-Print Assumptions C20_tie_loops_maven_trimTrailingNulls_gen.
-Definition C20_tie_loops_maven_trimTrailingNulls := Verif.Tie.Loops.Maven.tie_loops_maven_trimTrailingNulls.
-Print Assumptions C20_tie_loops_maven_trimTrailingNulls.
-Definition C20_tie_trimTrailingNulls_total_model := Verif.Tie.Loops.Maven.trimTrailingNulls_total_model.
-Print Assumptions C20_tie_trimTrailingNulls_total_model.
-Definition C20_tie_loops_npm_comparePrerelease := Verif.Tie.Loops.Npm.tie_loops_npm_comparePrerelease.
-Print Assumptions C20_tie_loops_npm_comparePrerelease.
-Definition C20_tie_npm_compare_closed := Verif.Tie.Loops.Npm.tie_npm_compare_closed.
-Print Assumptions C20_tie_npm_compare_closed.
-Definition C20_tie_loops_nuget_comparePrerelease := Verif.Tie.Loops.Nuget.tie_loops_nuget_comparePrerelease.
-Print Assumptions C20_tie_loops_nuget_comparePrerelease.
-Definition C20_tie_nuget_compare_closed := Verif.Tie.Loops.Nuget.tie_nuget_compare_closed.
-Print Assumptions C20_tie_nuget_compare_closed.
-Definition C20_tie_nuget_matches_closed := Verif.Tie.Loops.NugetRange.tie_nuget_matches_closed.
-Print Assumptions C20_tie_nuget_matches_closed.
-Definition C20_tie_nuget_contains_closed := Verif.Tie.Loops.NugetRange.tie_nuget_contains_closed.
-Print Assumptions C20_tie_nuget_contains_closed.
-Definition C20_tie_nuget_contains_closed_model_num := Verif.Tie.Loops.NugetRange.tie_nuget_contains_closed_model_num.
-Print Assumptions C20_tie_nuget_contains_closed_model_num.
-Definition C20_tie_loops_pypi_compareReleaseVersions := Verif.Tie.Loops.Pypi.tie_loops_pypi_compareReleaseVersions.
-Print Assumptions C20_tie_loops_pypi_compareReleaseVersions.
-Definition C20_tie_compareReleaseVersions_total_model := Verif.Tie.Loops.Pypi.compareReleaseVersions_total_model.
-Print Assumptions C20_tie_compareReleaseVersions_total_model.
-Definition C20_tie_pypi_compare_closed := Verif.Tie.Loops.Pypi.tie_pypi_compare_closed.
-Print Assumptions C20_tie_pypi_compare_closed.
-Definition C20_tie_pypi_matches_closed := Verif.Tie.Loops.PypiRange.tie_pypi_matches_closed.
-Print Assumptions C20_tie_pypi_matches_closed.
-Definition C20_tie_pypi_contains_closed := Verif.Tie.Loops.PypiRange.tie_pypi_contains_closed.
-Print Assumptions C20_tie_pypi_contains_closed.
-Definition C20_tie_loops_rpm_isSeparator := Verif.Tie.Loops.Rpm.tie_loops_rpm_isSeparator.
-Print Assumptions C20_tie_loops_rpm_isSeparator.
-Definition C20_tie_loops_rpm_isSeparator_rune := Verif.Tie.Loops.Rpm.tie_loops_rpm_isSeparator_rune.
-Print Assumptions C20_tie_loops_rpm_isSeparator_rune.
-Definition C20_tie_loops_rpm_compareRPMDigits := Verif.Tie.Loops.Rpm.tie_loops_rpm_compareRPMDigits.
-Print Assumptions C20_tie_loops_rpm_compareRPMDigits.
-Definition C20_tie_rpm_compareRPMNonDigits := Verif.Tie.Loops.Rpm.tie_rpm_compareRPMNonDigits.
-Print Assumptions C20_tie_rpm_compareRPMNonDigits.
-Definition C20_tie_loops_rpm_compareRPMVersionString := Verif.Tie.Loops.Rpm.tie_loops_rpm_compareRPMVersionString.
-Print Assumptions C20_tie_loops_rpm_compareRPMVersionString.
-Definition C20_tie_compareRPMVersionString_total_model := Verif.Tie.Loops.Rpm.compareRPMVersionString_total_model.
-Print Assumptions C20_tie_compareRPMVersionString_total_model.
-Definition C20_tie_rpm_compare_closed := Verif.Tie.Loops.Rpm.tie_rpm_compare_closed.
-Print Assumptions C20_tie_rpm_compare_closed.
-Definition C20_tie_rpm_satisfiesRPMConstraint_closed := Verif.Tie.Loops.RpmRange.tie_rpm_satisfiesRPMConstraint_closed.
-Print Assumptions C20_tie_rpm_satisfiesRPMConstraint_closed.
-Definition C20_tie_rpm_contains_closed := Verif.Tie.Loops.RpmRange.tie_rpm_contains_closed.
-Print Assumptions C20_tie_rpm_contains_closed.
-Definition C20_tie_loops_semver_comparePrerelease := Verif.Tie.Loops.Semver.tie_loops_semver_comparePrerelease.
-Print Assumptions C20_tie_loops_semver_comparePrerelease.
-Definition C20_tie_semver_compare_closed := Verif.Tie.Loops.Semver.tie_semver_compare_closed.
-Print Assumptions C20_tie_semver_compare_closed.
 (* ====== ties to the source: END ====== *)
